@@ -4,6 +4,7 @@ import (
 	"bytes"
 	"fmt"
 	"strings"
+	"verif/shim/vclock"
 
 	"verif/internal/tsgu"
 )
@@ -105,7 +106,7 @@ func c08(env *Env, rep *Report) {
 	sessions := c08Sessions()
 	rep.Rule = "the byte stream of 4 packet sessions (canonical 8 packets; unknown packet in the middle; 5000-byte data packet; 1.5 KiB cookie) is delivered to the real websocket and legacy handlers under every segmentation of the enumerated families: " +
 		"every single cut position, every pair of cut positions (all pairs for streams <= 400 bytes; otherwise positions within 12 bytes of a packet boundary or header end, and every 509th), every coalescing of adjacent packets (2^(n-1) compositions), compositions combined with one cut, " +
-		"each both paced (gateway reads each segment separately) and in a burst (segments are queued before the gateway reads; on legacy the chunk reader may merge them); unframeable streams (length field 0..7, packet never completed then EOF) must end the tunnel without a further answer. " +
+		"each both paced (gateway reads each segment separately) and in a burst (segments are queued before the gateway reads; on legacy the chunk reader may merge them); a patient client whose reads all straddle a packet boundary, four seconds apart on the gateway's clock; unframeable streams (length field 0..7, packet never completed then EOF) must end the tunnel without a further answer. " +
 		"Oracle: differential against the one-packet-per-segment run: same responses, same bytes at the host, same end. distinct_nontrivial = distinct (session, transport, segmentation) cases."
 	rep.Assumptions = append(rep.Assumptions,
 		"websocket: a segment is one binary message (fragmented websocket frames are reassembled by gorilla and are exercised separately as 2- and 3-frame messages); legacy: a segment is one HTTP chunk in one TCP write",
@@ -268,6 +269,34 @@ func c08(env *Env, rep *Report) {
 					segs := append(append([]Seg{}, pre...), Seg{Bytes: half}, Seg{Action: "close"})
 					c08Unframeable(kind, ss.Name, fmt.Sprintf("incomplete-then-eof-after-%d-packets", k), segs, k, rep)
 				}
+			}
+		}
+		// a patient client whose reads never end on a packet boundary (every segment holds the second half of one
+		// packet and the first half of the next), four seconds apart on the gateway's clock: every packet is
+		// complete within one step, the session lasts longer than any per-packet allowance
+		for si, ss := range sessions {
+			cases++
+			if !env.mine(cases) {
+				continue
+			}
+			var refSegs, segs []Seg
+			var carry []byte
+			for _, p := range ss.Pkts {
+				refSegs = append(refSegs, Seg{Bytes: p}, Seg{Action: "clock+4s"})
+				h := len(p) / 2
+				segs = append(segs, Seg{Bytes: append(append([]byte{}, carry...), p[:h]...)}, Seg{Action: "clock+4s"})
+				carry = p[h:]
+			}
+			segs = append(segs, Seg{Bytes: carry})
+			vclock.Reset()
+			ref := c08Run(kind, refSegs, rep)
+			vclock.Reset()
+			got := c08Run(kind, segs, rep)
+			vclock.Reset()
+			distinct[fmt.Sprintf("%s/%d/slow-misaligned", kind, si)] = true
+			if got.resps != ref.resps || !bytes.Equal(got.backend, ref.backend) || got.ended != ref.ended || len(got.panics) > 0 {
+				rep.violate("C08/segmentation-changes-behaviour/slow-misaligned/"+kind, fmt.Sprintf("session %s, every read straddles a packet boundary, 4 s between reads: %q (one packet per read at the same pace: %q), host bytes %d (reference %d), ended %v (reference %v) panics=%v", ss.Name, got.resps, ref.resps, len(got.backend), len(ref.backend), got.ended, ref.ended, got.panics),
+					map[string]any{"noreplay": true})
 			}
 		}
 		// websocket messages sent as 2 and 3 frames
